@@ -79,7 +79,9 @@ impl ThreadKey {
 		// safety: if this code changes, check to ensure the requirement for
 		//         the Drop implementation is still true
 		KEY.with(|key| {
-			key.try_lock().then_some(Self {
+			// `then`, not `then_some`: a key must not be created (and dropped,
+			// which would unlock the cell) when the cell is already locked
+			key.try_lock().then(|| Self {
 				phantom: PhantomData,
 			})
 		})
